@@ -143,14 +143,24 @@ class World:
             elif op == 'thaw':
                 res = t.thaw()
             elif op == 'str':
-                text = str(t) if how % 3 == 0 else format(t) if how % 3 == 1 else t.join(' ')
-                res = CLS[a['c']].from_str(text)
+                res = derive_same_kind(a['c'], t, how % 5)
             else:
                 raise SystemExit('unknown op ' + op)
         except Exception as exc:  # noqa: BLE001 - type is logged and judged by TLC
             return type(exc).__name__
         sl[a['s'] - 1] = res
         return ''
+
+
+def derive_same_kind(cls: str, t, spelling: int):
+    """An object of class cls with the value of t (same kind): through the text form in its three spellings,
+    from_str given the instance itself, or with_axes taking every axis from the instance."""
+    if spelling == 3:
+        return CLS[cls].from_str(t)
+    if spelling == 4:
+        ax = ('x', 'y', 'z') if isinstance(t, VECS) else ('pitch', 'yaw', 'roll')
+        return CLS[cls].with_axes(ax[0], t, ax[1], t, ax[2], t)
+    return CLS[cls].from_str(str(t) if spelling == 0 else format(t) if spelling == 1 else t.join(' '))
 
 
 def make(cls: str, v, how: int):
@@ -315,6 +325,7 @@ def mode_edges(edge_file: str, steps: hlib.RecWriter, text: hlib.RecWriter, stat
         stats['edges_replayed'] = stats.get('edges_replayed', 0) + 1
     stats['ops'] = ops
     mode_grid(steps, text, stats)
+    mode_probes(steps, stats)
 
 
 def mode_grid(steps: hlib.RecWriter, text: hlib.RecWriter, stats: dict) -> None:
@@ -353,6 +364,107 @@ def mode_grid(steps: hlib.RecWriter, text: hlib.RecWriter, stats: dict) -> None:
                 run_history([new], fixed(op='imul', t=1, k=k), n, 0, None, steps, text, stats, 'grid')
                 n += 1
     stats['grid_histories'] = n
+
+
+# -------------------------------------------------------------------- independence probes
+def hexes(obj) -> list:
+    return [x.hex() for x in comps(obj)]
+
+
+def mutations(obj) -> list:
+    """(name, callable mutating obj in place) for every public in-place path of the object's class."""
+    if isinstance(obj, Vec):
+        def tf(o):
+            with o.transform() as m:
+                m @= Angle(0.0, 90.0, 0.0)
+        return [('attr', lambda o: setattr(o, 'y', 77.5)), ('item', lambda o: o.__setitem__(2, -9.25)),
+                ('item_name', lambda o: o.__setitem__('x', 4.5)), ('imul', lambda o: operator.imul(o, 3.0)),
+                ('iadd', lambda o: operator.iadd(o, (1.0, 2.0, 3.0))), ('imm', lambda o: operator.imatmul(o, Angle(0.0, 90.0, 0.0))),
+                ('transform', tf), ('localise', lambda o: o.localise((1.0, 1.0, 1.0), Angle(0.0, 90.0, 0.0))),
+                ('max', lambda o: o.max((1e3, 1e3, 1e3)))]
+    if isinstance(obj, Angle):
+        def tf(o):
+            with o.transform() as m:
+                m @= Angle(15.0, 45.0, 0.0)
+        return [('attr', lambda o: setattr(o, 'yaw', -1e-14 + 77.0)), ('item', lambda o: o.__setitem__(2, 720.5)),
+                ('item_name', lambda o: o.__setitem__('pit', 45.0)), ('imul', lambda o: operator.imul(o, 1.5)),
+                ('imm', lambda o: operator.imatmul(o, Angle(15.0, 45.0, 0.0))), ('imm_matrix', lambda o: operator.imatmul(o, Matrix.from_yaw(45.0))),
+                ('transform', tf)]
+    if isinstance(obj, Matrix):
+        return [('item', lambda o: o.__setitem__((0, 1), 0.5)), ('imm', lambda o: operator.imatmul(o, Matrix.from_yaw(45.0))),
+                ('imm_angle', lambda o: operator.imatmul(o, Angle(15.0, 45.0, 0.0)))]
+    return []
+
+
+def derivations(src) -> list:
+    """(via, abstract action for MathObjOps.Shape, callable) for every public way to derive an object from src."""
+    scls = type(src).__name__
+    k = 'V' if isinstance(src, VECS) else 'A' if isinstance(src, ANGS) else 'M'
+    same = {'V': ('Vec', 'FrozenVec'), 'A': ('Angle', 'FrozenAngle'), 'M': ('Matrix', 'FrozenMatrix')}[k]
+    out = []
+    for c in same:
+        out.append(('ctor', {'op': 'conv', 's': 2, 't': 1, 'c': c}, lambda o, c=c: CLS[c](o)))
+        if k != 'M':
+            for sp, nm in enumerate(('str', 'format', 'join', 'from_str_instance', 'with_axes')):
+                out.append((nm, {'op': 'str', 's': 2, 't': 1, 'c': c}, lambda o, c=c, sp=sp: derive_same_kind(c, o, sp)))
+        else:
+            for n, kw in enumerate(('xy', 'xz', 'yz', 'xyz')):
+                def fb(o, c=c, kw=kw):
+                    ax = {'x': o.forward(), 'y': o.left(), 'z': o.up()}
+                    return CLS[c].from_basis(**{a: ax[a] for a in kw})
+                out.append(('from_basis_' + kw, {'op': 'from_basis', 's': 2, 't': 1, 'c': c}, fb))
+    for h, fn in (('copy', lambda o: o.copy()), ('copymod', copy.copy), ('deepcopy', copy.deepcopy),
+                  ('pickle', lambda o: pickle.loads(pickle.dumps(o)))):
+        out.append((h, {'op': 'copy', 's': 2, 't': 1, 'how': h}, fn))
+    if scls in ('Vec', 'Angle', 'Matrix'):
+        out.append(('freeze', {'op': 'freeze', 's': 2, 't': 1}, lambda o: o.freeze()))
+    else:
+        out.append(('thaw', {'op': 'thaw', 's': 2, 't': 1}, lambda o: o.thaw()))
+    return out
+
+
+PROBE_SRC = {'Vec': (1.5, -2.0, 3.25), 'FrozenVec': (1.5, -2.0, 3.25), 'Angle': (10.0, 20.0, 30.0), 'FrozenAngle': (10.0, 20.0, 30.0)}
+
+
+def probe_source(scls: str):
+    if scls in PROBE_SRC:
+        return CLS[scls](*PROBE_SRC[scls])
+    return CLS[scls].from_angle(10.0, 20.0, 30.0)
+
+
+def mode_probes(steps: hlib.RecWriter, stats: dict, only: dict | None = None) -> None:
+    """Derive, mutate one side in place, watch the other side: the independence clause of the property, for
+    every derivation path x every in-place mutation x both directions.  Judged by TLC (MathObjTrace, k=indep)."""
+    n = 0
+    for scls in CLS:
+        for via, a, fn in derivations(probe_source(scls)):
+            probes = [('none', 'res', None)]
+            res0 = fn(probe_source(scls))
+            probes += [(nm, 'res', None) for nm, _ in mutations(res0)]
+            probes += [(nm, 'src', None) for nm, _ in mutations(probe_source(scls))]
+            for mut, direction, _ in probes:
+                key = {'via': via, 'scls': scls, 'mut': mut, 'dir': direction}
+                if only is not None and any(only.get(k) != v for k, v in key.items()):
+                    continue
+                src = probe_source(scls)
+                res = fn(src)
+                equal0 = copy_eq(a['op'], res, src)
+                target, watched = (res, src) if direction == 'res' else (src, res)
+                wb, mb = hexes(watched), hexes(target)
+                et = ''
+                if mut != 'none':
+                    try:
+                        dict(mutations(target))[mut](target)
+                    except Exception as exc:  # noqa: BLE001
+                        et = type(exc).__name__
+                rec = {'k': 'indep', 'a': a, 'scls': scls, 'rcls': type(res).__name__, 'via': via, 'mut': mut, 'dir': direction,
+                       'same': res is src, 'equal0': bool(equal0['lib'] and equal0['close']) or a['op'] == 'from_basis',
+                       'wb': wb, 'wa': hexes(watched), 'mb': mb, 'ma': hexes(target), 'exc': bool(et), 'et': et,
+                       'sig': dict(key, kind='indep', action=a['op'], lcls=scls, rcls=type(res).__name__),
+                       'hist': {'probe': key}}
+                steps.write(rec)
+                n += 1
+    stats['independence_probes'] = stats.get('independence_probes', 0) + n
 
 
 # -------------------------------------------------------------------- texts
@@ -430,7 +542,9 @@ def mode_text(edge_file: str, out: hlib.RecWriter, stats: dict) -> None:
 def mode_replay(path: str, steps: hlib.RecWriter, text: hlib.RecWriter) -> None:
     rec = json.load(open(path))['record']
     h = rec['hist']
-    if rec['k'] in ('step', 'hstep'):
+    if rec['k'] == 'indep':
+        mode_probes(steps, {}, only=h['probe'])
+    elif rec['k'] in ('step', 'hstep'):
         replay_steps(h, steps, text)
     elif rec['k'] == 'fmt':
         text.write(fmt_record(float.fromhex(h['x']), h['places'], h['action']))
